@@ -45,6 +45,14 @@ Ltac rb H :=
     | (let (_, _) := ?x in _) = ROk _ => destruct x
     end).
 
+(* use an induction hypothesis whose premise may have been rewritten by `destruct .. eqn` *)
+Ltac useIH2 IH X :=
+  first [ pose proof (IH _ _ eq_refl) as X
+        | match goal with Hx : _ = ROk (_, _) |- _ => pose proof (IH _ _ Hx) as X end ].
+Ltac useIH1 IH X :=
+  first [ pose proof (IH _ eq_refl) as X
+        | match goal with Hx : _ = ROk _ |- _ => pose proof (IH _ Hx) as X end ].
+
 (* ---- table::analyze ---- *)
 Section An.
 Variable L : option ltable.
@@ -62,21 +70,22 @@ Proof.
   - intros a idx inf IHa IHi v' t H. cbn [an_var] in H. rb H.
     assert (Hidx : match idx with Some (e, o) => Some (strip_expr e, o) | None => None end =
                    match a0 with Some (e, o) => Some (strip_expr e, o) | None => None end).
-    { destruct idx as [[e off]|]; rb E; [|injection E as <-; reflexivity]. injection E as <-. cbn [po_opt fst] in IHi.
-      specialize (IHi _ _ E1). destruct o as [[| |]|]; rewrite ?strip_expr_append by reflexivity; rewrite IHi; reflexivity. }
-    specialize (IHa _ _ E0).
-    destruct o as [[| |sz base cr]|]; injection H as <- <-; cbn [strip_var]; rewrite ?strip_info_append by reflexivity;
-      rewrite IHa, Hidx; reflexivity.
+    { destruct idx as [[e off]|]; rb E; injection E as <-; [|reflexivity]. cbn [po_opt fst] in IHi.
+      useIH2 IHi X. match goal with |- context [match ?ty with Some _ => _ | None => _ end] => destruct ty as [[| |]|] end;
+        rewrite ?strip_expr_append by reflexivity; rewrite X; reflexivity. }
+    useIH2 IHa Xa.
+    match type of H with match ?o with _ => _ end = _ => destruct o as [[| |sz base cr]|] end; injection H as <- <-;
+      cbn [strip_var]; rewrite ?strip_info_append by reflexivity; rewrite Xa, Hidx; reflexivity.
   - intros op l r inf IHl IHr e' t H. cbn [an_expr] in H. rb H. injection H as <- <-. cbn [strip_expr].
-    rewrite (IHl _ _ E), (IHr _ _ E0). f_equal.
+    useIH2 IHl Xl. useIH2 IHr Xr. rewrite Xl, Xr. f_equal.
     destruct o as [a|]; [|reflexivity]. destruct o0 as [b|]; [|reflexivity].
     destruct (is_int a && is_int b); [reflexivity|]. destruct (is_int a || is_int b); [apply strip_info_append; reflexivity|].
     destruct (is_arithmetic op); apply strip_info_append; reflexivity.
-  - intros a inf IHa e' t H. cbn [an_expr] in H. rb H. injection H as <- <-. cbn [strip_expr]. rewrite (IHa _ _ E). reflexivity.
+  - intros a inf IHa e' t H. cbn [an_expr] in H. rb H. injection H as <- <-. cbn [strip_expr]. useIH2 IHa Xa. rewrite Xa. reflexivity.
   - intros i e' t H. cbn [an_expr] in H. injection H as <- <-. reflexivity.
-  - intros op a inf IHa e' t H. cbn [an_expr] in H. rb H. injection H as <- <-. cbn [strip_expr]. rewrite (IHa _ _ E). f_equal.
+  - intros op a inf IHa e' t H. cbn [an_expr] in H. rb H. injection H as <- <-. cbn [strip_expr]. useIH2 IHa Xa. rewrite Xa. f_equal.
     destruct o as [ty|]; [|reflexivity]. destruct (is_int ty); [reflexivity | apply strip_info_append; reflexivity].
-  - intros v IHv e' t H. cbn [an_expr] in H. rb H. injection H as <- <-. cbn [strip_expr]. rewrite (IHv _ _ E). reflexivity.
+  - intros v IHv e' t H. cbn [an_expr] in H. rb H. injection H as <- <-. cbn [strip_expr]. useIH2 IHv Xv. rewrite Xv. reflexivity.
   - intros inf e' t H. cbn [an_expr] in H. injection H as <- <-. reflexivity.
 Qed.
 
@@ -93,8 +102,8 @@ Lemma an_args_strip cname : forall args i params args',
 Proof.
   induction args as [|[a off] ar IH]; intros i params args' H; cbn [an_args] in H; [injection H as <-; reflexivity|].
   destruct params as [|p pr]; [injection H as <-; reflexivity|]. rb H. injection H as <-. cbn [map fst snd].
-  rewrite (IH _ _ _ E0). f_equal. f_equal.
-  pose proof (proj2 an_var_expr_strip _ _ _ E) as X.
+  match goal with Hx : an_args L G cname _ ar pr = ROk _ |- _ => rewrite (IH _ _ _ Hx) end. f_equal. f_equal.
+  match goal with Hx : an_expr L G _ = ROk (_, _) |- _ => pose proof (proj2 an_var_expr_strip _ _ _ Hx) as X end.
   assert (Y : strip_expr e = strip_expr a).
   { rewrite X. destruct (ve_ref p && negb match a with EVar _ => true | _ => false end); [apply strip_expr_append; reflexivity | reflexivity]. }
   destruct o as [t1|]; [|exact Y]. destruct (ve_ty p) as [t2|]; [|exact Y].
@@ -116,14 +125,18 @@ Proof.
     destruct (Nat.compare (length args) (length (pe_params pe))); [reflexivity | apply strip_info_append; reflexivity | apply strip_info_append; reflexivity].
   - intros c t e inf IHt IHe s' H. cbn [an_stmt] in H. rb H. injection H as <-. cbn [strip_stmt].
     rewrite (an_cond_strip _ _ _ E). f_equal.
-    + destruct t as [[x off]|]; rb E0; injection E0 as <-; [|reflexivity]. cbn [po_opt fst] in IHt. rewrite (IHt _ E2). reflexivity.
-    + destruct e as [[x off]|]; rb E1; injection E1 as <-; [|reflexivity]. cbn [po_opt fst] in IHe. rewrite (IHe _ E2). reflexivity.
+    + destruct t as [[x off]|]; rb E0; injection E0 as <-; [|reflexivity]. cbn [po_opt fst] in IHt. useIH1 IHt X. rewrite X. reflexivity.
+    + destruct e as [[x off]|]; rb E1; injection E1 as <-; [|reflexivity]. cbn [po_opt fst] in IHe. useIH1 IHe X. rewrite X. reflexivity.
   - intros c b inf IHb s' H. cbn [an_stmt] in H. rb H. injection H as <-. cbn [strip_stmt].
     rewrite (an_cond_strip _ _ _ E). f_equal.
-    destruct b as [[x off]|]; rb E0; injection E0 as <-; [|reflexivity]. cbn [po_opt fst] in IHb. rewrite (IHb _ E1). reflexivity.
-  - intros body inf IHb s' H. cbn [an_stmt] in H. rb H. injection H as <-. rewrite !strip_stmt_block. f_equal.
-    clear - E IHb. revert a E. induction body as [|[x off] r IH]; intros l' E; [injection E as <-; reflexivity|].
-    rb E. injection E as <-. cbn [all fst] in IHb. destruct IHb as [I1 I2]. cbn [map fst snd]. rewrite (I1 _ E0), (IH I2 _ E1). reflexivity.
+    destruct b as [[x off]|]; rb E0; injection E0 as <-; [|reflexivity]. cbn [po_opt fst] in IHb. useIH1 IHb X. rewrite X. reflexivity.
+  - intros body inf IHb s' H. cbn [an_stmt] in H.
+    change (rbind (an_stmts L G body) (fun body' => ROk (SBlock body' inf)) = ROk s') in H.
+    rb H. injection H as <-. rewrite !strip_stmt_block. f_equal.
+    match goal with Hx : an_stmts L G body = ROk ?l |- _ => revert l Hx end. clear - IHb.
+    induction body as [|[x off] r IH]; intros l' E; cbn [an_stmts] in E; [injection E as <-; reflexivity|].
+    cbn [all fst] in IHb. destruct IHb as [I1 I2]. specialize (IH I2).
+    rb E. injection E as <-. cbn [map fst snd]. useIH1 I1 X1. useIH1 IH X2. rewrite X1, X2. reflexivity.
   - intros inf s' H. cbn [an_stmt] in H. injection H as <-. reflexivity.
 Qed.
 
@@ -131,7 +144,8 @@ Lemma an_stmts_strip : forall l l', an_stmts L G l = ROk l' ->
   map (fun a => (strip_stmt (fst a), snd a)) l' = map (fun a => (strip_stmt (fst a), snd a)) l.
 Proof.
   induction l as [|[x off] r IH]; intros l' H; cbn [an_stmts] in H; [injection H as <-; reflexivity|].
-  rb H. injection H as <-. cbn [map fst snd]. rewrite (an_stmt_strip _ _ E), (IH _ E0). reflexivity.
+  rb H. injection H as <-. cbn [map fst snd]. useIH1 IH X2.
+  match goal with Hx : an_stmt L G x = ROk _ |- _ => rewrite (an_stmt_strip _ _ Hx) end. rewrite X2. reflexivity.
 Qed.
 
 End An.
@@ -139,27 +153,30 @@ End An.
 Lemma analyze_gdecl_strip T d d' : analyze_gdecl T d = ROk d' -> strip_gdecl (fst d') = strip_gdecl (fst d) /\ snd d' = snd d.
 Proof.
   unfold analyze_gdecl. destruct d as [g off]. destruct g as [td|pd|inf]; try (intros H; injection H as <-; auto).
-  destruct (pd_name pd) as [name|]; [|intros H; injection H as <-; auto].
+  destruct (pd_name pd) as [name|] eqn:En; [|intros H; injection H as <-; auto].
   destruct (lookup T (id_val name)) as [[te|pe]|]; [intros H; injection H as <-; auto | | discriminate].
   destruct (negb _); [intros H; injection H as <-; auto|]. intros H. rb H. injection H as <-. cbn [fst snd strip_gdecl]. split; [|reflexivity].
-  f_equal. unfold strip_procdecl. cbn [pd_doc pd_name pd_params pd_vars pd_stmts pd_info]. rewrite (an_stmts_strip _ _ _ _ E). reflexivity.
+  f_equal. unfold strip_procdecl. cbn [pd_doc pd_name pd_params pd_vars pd_stmts pd_info]. rewrite (an_stmts_strip _ _ _ _ E), En. reflexivity.
 Qed.
 
 Lemma analyze_res_strip p T p' : analyze_res p T = ROk p' -> strip_program p' = strip_program p.
 Proof.
   unfold analyze_res. intros H. rb H. injection H as <-. unfold strip_program. cbn [pg_decls pg_info]. f_equal.
   revert a E. induction (pg_decls p) as [|d r IH]; intros l' E; cbn [analyze_gdecls] in E; [injection E as <-; reflexivity|].
-  rb E. injection E as <-. cbn [map]. destruct (analyze_gdecl_strip _ _ _ E0) as [A B]. rewrite A, B, (IH _ E1). reflexivity.
+  rb E. injection E as <-. cbn [map]. useIH1 IH X.
+  match goal with Hx : analyze_gdecl T d = ROk _ |- _ => destruct (analyze_gdecl_strip _ _ _ Hx) as [A B] end. rewrite A, B, X. reflexivity.
 Qed.
 
 (* ---- table::build ---- *)
+Ltac flag E := eapply ident_flag_strip; [|exact E]; intros ?; reflexivity.
+
 Lemma get_data_type_te_strip l g c : forall t t' dt, get_data_type_te l g c t = ROk (t', dt) -> strip_texpr t' = strip_texpr t.
 Proof.
   apply (texpr_induction (fun t => forall t' dt, get_data_type_te l g c t = ROk (t', dt) -> strip_texpr t' = strip_texpr t)).
   - intros i t' dt H. cbn [get_data_type_te] in H. destruct (lt_lookup l g (id_val i)) as [[te|pe|ve|ve]|]; rb H; injection H as <- <-;
       try reflexivity; cbn [strip_texpr]; f_equal; (eapply ident_flag_strip; [|eassumption]; intros n; reflexivity).
   - intros size base inf IH t' dt H. cbn [get_data_type_te] in H. destruct base as [[b off]|]; rb H; injection H as <- <-; [|reflexivity].
-    cbn [po_opt fst] in IH. cbn [strip_texpr]. rewrite (IH _ _ E). reflexivity.
+    cbn [po_opt fst] in IH. cbn [strip_texpr]. useIH2 IH X. rewrite X. reflexivity.
 Qed.
 
 Lemma get_data_type_strip l g c t t' dt : get_data_type l g c t = ROk (t', dt) -> strip_oref strip_texpr t' = strip_oref strip_texpr t.
@@ -168,28 +185,33 @@ Proof.
   cbn [strip_oref]. rewrite (get_data_type_te_strip _ _ _ _ _ _ E). reflexivity.
 Qed.
 
+Ltac okflag :=
+  match goal with
+  | Hx : (if ?b then ROk _ else _) = ROk _ |- _ => destruct b; [injection Hx as <-; reflexivity | flag Hx]
+  end.
+
 Lemma build_typedecl_strip d T o d' T' : build_typedecl d T o = ROk (d', T') -> strip_typedecl d' = strip_typedecl d.
 Proof.
   unfold build_typedecl. destruct (td_name d) as [name|] eqn:En; [|intros H; injection H as <- <-; reflexivity].
   destruct (text_eqb (id_val name) s_main).
   - intros H. rb H. injection H as <- <-. unfold strip_typedecl. cbn [td_doc td_name td_ty td_info]. rewrite En. cbn [option_map].
-    rewrite (ident_flag_strip _ _ _ ltac:(intros n; reflexivity) E). reflexivity.
-  - intros H. rb H. destruct (enter T (id_val name) _) as [T1 ok]. rb H. injection H as <- <-.
+    f_equal. f_equal. flag E.
+  - intros H. rb H. injection H as <- <-.
     unfold strip_typedecl. cbn [td_doc td_name td_ty td_info]. rewrite En. cbn [option_map].
-    rewrite (get_data_type_strip _ _ _ _ _ _ E). f_equal. f_equal.
-    destruct ok; [injection E0 as <-; reflexivity | exact (ident_flag_strip _ _ _ ltac:(intros n; reflexivity) E0)].
+    rewrite (get_data_type_strip _ _ _ _ _ _ E). f_equal. f_equal. okflag.
 Qed.
 
 Lemma build_parameter_strip p name g l p' l' oe :
   build_parameter p name g l = ROk (p', l', oe) -> strip_paramdecl (fst p') = strip_paramdecl (fst p) /\ snd p' = snd p.
 Proof.
   unfold build_parameter. destruct p as [pd off]. destruct pd as [doc r [n|] ty inf|inf]; try (intros H; injection H as <- <- <-; auto).
-  intros H. rb H. destruct (enter l (id_val n) _) as [l1 ok]. rb H. injection H as <- <- <-. cbn [fst snd strip_paramdecl option_map].
+  intros H. rb H. injection H as <- <- <-. cbn [fst snd strip_paramdecl option_map].
   split; [|reflexivity]. rewrite (get_data_type_strip _ _ _ _ _ _ E). f_equal. f_equal.
-  assert (X : strip_ident a0 = strip_ident n).
-  { destruct o as [d|]; [|injection E0 as <-; reflexivity].
-    destruct (negb (is_primitive d) && negb r); [exact (ident_flag_strip _ _ _ ltac:(intros k; reflexivity) E0) | injection E0 as <-; reflexivity]. }
-  destruct ok; [injection E1 as <-; exact X | rewrite (ident_flag_strip _ _ _ ltac:(intros k; reflexivity) E1); exact X].
+  match goal with Hx : (if ?b then ROk ?n1 else _) = ROk _ |- _ =>
+    assert (X : strip_ident n1 = strip_ident n);
+    [| destruct b; [injection Hx as <-; exact X | transitivity (strip_ident n1); [flag Hx | exact X]]] end.
+  match goal with Hx : match ?o with Some _ => _ | None => _ end = ROk _ |- _ => destruct o as [d|]; [|injection Hx as <-; reflexivity];
+    destruct (negb (is_primitive d) && negb r); [flag Hx | injection Hx as <-; reflexivity] end.
 Qed.
 
 Lemma build_parameters_strip name g : forall ps l ps' l' es,
@@ -197,16 +219,18 @@ Lemma build_parameters_strip name g : forall ps l ps' l' es,
   map (fun a => (strip_paramdecl (fst a), snd a)) ps' = map (fun a => (strip_paramdecl (fst a), snd a)) ps.
 Proof.
   induction ps as [|p r IH]; intros l ps' l' es H; cbn [build_parameters] in H; [injection H as <- <- <-; reflexivity|].
-  rb H. injection H as <- <- <-. cbn [map]. destruct (build_parameter_strip _ _ _ _ _ _ _ E) as [A B]. rewrite A, B, (IH _ _ _ _ E0). reflexivity.
+  rb H. injection H as <- <- <-. cbn [map].
+  match goal with Hx : build_parameters r name g _ = ROk _ |- _ => pose proof (IH _ _ _ _ Hx) as X end.
+  match goal with Hx : build_parameter p name g l = ROk _ |- _ => destruct (build_parameter_strip _ _ _ _ _ _ _ Hx) as [A B] end.
+  cbn [fst snd] in A, B. rewrite A, B, X. reflexivity.
 Qed.
 
 Lemma build_variable_strip v name g l v' l' :
   build_variable v name g l = ROk (v', l') -> strip_vardecl (fst v') = strip_vardecl (fst v) /\ snd v' = snd v.
 Proof.
   unfold build_variable. destruct v as [vd off]. destruct vd as [doc [n|] ty inf|inf]; try (intros H; injection H as <- <-; auto).
-  intros H. rb H. destruct (enter l (id_val n) _) as [l1 ok]. rb H. injection H as <- <-. cbn [fst snd strip_vardecl option_map].
-  split; [|reflexivity]. rewrite (get_data_type_strip _ _ _ _ _ _ E). f_equal. f_equal.
-  destruct ok; [injection E0 as <-; reflexivity | exact (ident_flag_strip _ _ _ ltac:(intros k; reflexivity) E0)].
+  intros H. rb H. injection H as <- <-. cbn [fst snd strip_vardecl option_map].
+  split; [|reflexivity]. rewrite (get_data_type_strip _ _ _ _ _ _ E). f_equal. f_equal. okflag.
 Qed.
 
 Lemma build_variables_strip name g : forall vs l vs' l',
@@ -214,23 +238,27 @@ Lemma build_variables_strip name g : forall vs l vs' l',
   map (fun a => (strip_vardecl (fst a), snd a)) vs' = map (fun a => (strip_vardecl (fst a), snd a)) vs.
 Proof.
   induction vs as [|v r IH]; intros l vs' l' H; cbn [build_variables] in H; [injection H as <- <-; reflexivity|].
-  rb H. injection H as <- <-. cbn [map]. destruct (build_variable_strip _ _ _ _ _ _ E) as [A B]. rewrite A, B, (IH _ _ _ E0). reflexivity.
+  rb H. injection H as <- <-. cbn [map].
+  match goal with Hx : build_variables r name g _ = ROk _ |- _ => pose proof (IH _ _ _ Hx) as X end.
+  match goal with Hx : build_variable v name g l = ROk _ |- _ => destruct (build_variable_strip _ _ _ _ _ _ Hx) as [A B] end.
+  cbn [fst snd] in A, B. rewrite A, B, X. reflexivity.
 Qed.
 
 Lemma build_procdecl_strip d T o d' T' : build_procdecl d T o = ROk (d', T') -> strip_procdecl d' = strip_procdecl d.
 Proof.
   unfold build_procdecl. destruct (pd_name d) as [name|] eqn:En; [|intros H; injection H as <- <-; reflexivity].
-  intros H. rb H. destruct (enter T (id_val name) _) as [T1 ok]. rb H. injection H as <- <-.
+  intros H. rb H. injection H as <- <-.
   unfold strip_procdecl. cbn [pd_doc pd_name pd_params pd_vars pd_stmts pd_info]. rewrite En. cbn [option_map].
-  rewrite (build_parameters_strip _ _ _ _ _ _ _ E), (build_variables_strip _ _ _ _ _ _ E0). f_equal. f_equal.
-  destruct ok; [injection E1 as <-; reflexivity | exact (ident_flag_strip _ _ _ ltac:(intros k; reflexivity) E1)].
+  rewrite (build_parameters_strip _ _ _ _ _ _ _ E), (build_variables_strip _ _ _ _ _ _ E0). f_equal. f_equal. okflag.
 Qed.
 
 Lemma build_gdecls_strip : forall ds T o ds' T', build_gdecls ds T o = ROk (ds', T') ->
   map (fun a => (strip_gdecl (fst a), snd a)) ds' = map (fun a => (strip_gdecl (fst a), snd a)) ds.
 Proof.
   induction ds as [|[d off] r IH]; intros T o ds' T' H; cbn [build_gdecls] in H; [injection H as <- <-; reflexivity|].
-  rb H. injection H as <- <-. cbn [map fst snd]. rewrite (IH _ _ _ _ E0). f_equal. f_equal.
+  rb H. injection H as <- <-. cbn [map fst snd].
+  match goal with Hx : build_gdecls r _ o = ROk _ |- _ => rewrite (IH _ _ _ _ Hx) end. f_equal. f_equal.
+  match goal with Hx : build_gdecl d T _ = ROk _ |- _ => rename Hx into E end.
   unfold build_gdecl in E. destruct d as [td|pd|inf]; rb E; injection E as <- <-; cbn [strip_gdecl]; try reflexivity; f_equal.
   - eapply build_typedecl_strip; eassumption.
   - eapply build_procdecl_strip; eassumption.
@@ -258,4 +286,85 @@ Proof.
   rewrite (analyze_res_strip _ _ _ Ea), (build_res_strip _ _ _ Eb). apply strip_program_id.
   unfold pnew in En. destruct (lex t); [|discriminate]. destruct (parse l) as [p| |] eqn:Ep; try discriminate. injection En as <-.
   exact (parse_parse_only _ _ Ep).
+Qed.
+
+(* ---- AnalyzedSource::update on blank edits ---- *)
+(* the old tree only matters up to its messages *)
+Lemma pstep_old_irrelevant pd1 pd2 c :
+  p_toks pd1 = p_toks pd2 -> CleanDoc pd2 -> strip_program (p_tree pd1) = p_tree pd2 -> blank_change pd2 c ->
+  pstep pd1 (c_a c) (c_d c) (c_b c) (c_ins c) = pstep pd2 (c_a c) (c_d c) (c_b c) (c_ins c).
+Proof.
+  intros Hk (Hl & Hp & Hc & Hn) Hs (Ht & toks & w & Hu). rewrite Ht in Hl. unfold pstep. rewrite Hk, Hu.
+  assert (Hs2 : strip_program (p_tree pd2) = p_tree pd2) by (apply strip_program_id, (parse_parse_only _ _ Hp)).
+  destruct (blank_parse_update (p_tree pd1) _ _ _ _ _ toks w _ Hl Hp Hc Hn Hs Hu) as (_ & _ & _ & C1).
+  destruct (blank_parse_update (p_tree pd2) _ _ _ _ _ toks w _ Hl Hp Hc Hn Hs2 Hu) as (_ & _ & _ & C2).
+  rewrite C1, C2. reflexivity.
+Qed.
+
+Lemma analyse_same_tree pd1 pd2 d1 : p_tree pd2 = p_tree pd1 -> analyse_pdoc pd1 = Done d1 -> exists d2, analyse_pdoc pd2 = Done d2.
+Proof.
+  unfold analyse_pdoc. intros ->. destruct (build_res (p_tree pd1)) as [[p1 T]|]; [|discriminate].
+  destruct (analyze_res p1 T); [|discriminate]. eauto.
+Qed.
+
+Lemma blank_hist_app : forall h1 h2 doc,
+  CleanDoc doc -> pnew (p_text doc) = Done doc -> blank_hist doc (h1 ++ h2) ->
+  blank_hist doc h1 /\ forall doc', pnew (final_text (p_text doc) h1) = Done doc' -> blank_hist doc' h2.
+Proof.
+  induction h1 as [|c r IH]; intros h2 doc Hc Hn Hb.
+  - cbn [app blank_hist final_text] in *. split; [exact I|]. intros doc' Hn'. rewrite Hn in Hn'. injection Hn' as <-. exact Hb.
+  - cbn [app blank_hist final_text] in *. destruct Hb as [Hb1 Hb2].
+    destruct (blank_step doc c Hc Hb1) as (d1 & E1 & N1 & C1 & T1).
+    assert (Ht1 : p_text d1 = c_a c ++ c_ins c ++ c_b c).
+    { unfold pnew in N1. destruct (lex _); [|discriminate]. destruct (parse _); try discriminate. injection N1 as <-. reflexivity. }
+    pose proof N1 as N1'. rewrite <- Ht1 in N1'. destruct (IH h2 d1 C1 N1' (Hb2 d1 N1)) as [A B].
+    split; [split; [exact Hb1|]|].
+    + intros doc' Hn'. rewrite N1 in Hn'. injection Hn' as <-. exact A.
+    + rewrite <- Ht1. exact B.
+Qed.
+
+(* one notification *)
+Theorem blank_notification doc0 d0 cs :
+  CleanDoc doc0 -> pnew (p_text doc0) = Done doc0 -> new_doc (p_text doc0) = Done d0 -> blank_hist doc0 cs ->
+  exists doc1 d1, update_doc d0 cs = Done d1 /\ new_doc (final_text (p_text doc0) cs) = Done d1 /\
+                  pnew (final_text (p_text doc0) cs) = Done doc1 /\ CleanDoc doc1.
+Proof.
+  intros Hc Hn Hd Hb. destruct cs as [|c r].
+  - exists doc0, d0. cbn [final_text]. rewrite update_doc_nil. auto.
+  - destruct (blank_history (c :: r) doc0 Hc Hn Hb) as (doc1 & E & N & T & C1).
+    destruct (new_doc_strip _ _ Hd) as (p & Hn' & Ht & Hs). rewrite Hn in Hn'. injection Hn' as Hdoc.
+    assert (Hk : p_toks (pdoc_of d0) = p_toks doc0) by (rewrite Hdoc; reflexivity).
+    assert (Hs' : strip_program (p_tree (pdoc_of d0)) = p_tree doc0) by (rewrite Hdoc; exact Hs).
+    destruct Hb as [Hb1 Hb2].
+    assert (Hps : psteps (pdoc_of d0) (c :: r) = Done doc1).
+    { cbn [psteps]. rewrite (pstep_old_irrelevant _ doc0 c Hk Hc Hs' Hb1). cbn [phist] in E.
+      destruct (pstep doc0 (c_a c) (c_d c) (c_b c) (c_ins c)) as [pd1| |]; try discriminate. rewrite psteps_phist. exact E. }
+    assert (Ha0 : analyse_pdoc doc0 = Done d0) by (rewrite new_doc_eq, Hn in Hd; exact Hd).
+    destruct (analyse_same_tree doc0 doc1 d0 T Ha0) as (d1 & Ha1).
+    exists doc1, d1. split; [rewrite update_doc_eq by discriminate; rewrite Hps; exact Ha1|].
+    split; [rewrite new_doc_eq, N; exact Ha1|]. split; [exact N | exact C1].
+Qed.
+
+(* C01 on documents, for histories of notifications made of blank edits *)
+Theorem blank_notifications : forall h doc0 d0,
+  CleanDoc doc0 -> pnew (p_text doc0) = Done doc0 -> new_doc (p_text doc0) = Done d0 -> blank_hist doc0 (concat h) ->
+  exists d', update_hist d0 h = Done d' /\ new_doc (final_text (p_text doc0) (concat h)) = Done d'.
+Proof.
+  induction h as [|cs r IH]; intros doc0 d0 Hc Hn Hd Hb.
+  - exists d0. cbn [update_hist concat final_text]. auto.
+  - cbn [concat] in Hb. destruct (blank_hist_app cs (concat r) doc0 Hc Hn Hb) as [Hb1 Hb2].
+    destruct (blank_notification doc0 d0 cs Hc Hn Hd Hb1) as (doc1 & d1 & U & N & P1 & C1).
+    assert (Ht1 : p_text doc1 = final_text (p_text doc0) cs).
+    { unfold pnew in P1. destruct (lex _); [|discriminate]. destruct (parse _); try discriminate. injection P1 as <-. reflexivity. }
+    rewrite <- Ht1 in P1, N. destruct (IH doc1 d1 C1 P1 N (Hb2 doc1 ltac:(rewrite <- Ht1; exact P1))) as (d' & U' & N').
+    exists d'. cbn [update_hist concat]. rewrite U. rewrite final_text_app, <- Ht1. auto.
+Qed.
+
+Theorem blank_notifications_fresh t h d0 :
+  clean_textb t = true -> blank_histb t (concat h) = true -> new_doc t = Done d0 ->
+  exists d', update_hist d0 h = Done d' /\ new_doc (final_text t (concat h)) = Done d'.
+Proof.
+  intros Hc Hb Hd. destruct (clean_textb_spec t Hc) as (doc0 & Hn & Hcd & Ht). subst t.
+  pose proof Hcd as (Hl & _).
+  exact (blank_notifications h doc0 d0 Hcd Hn Hd (blank_histb_spec _ doc0 Hl Hb)).
 Qed.
